@@ -20,27 +20,42 @@ PROP = Property(
         harnesses=[
             H("c01_check_indices_two_indices", "bounded",
               "Ok ==> forall index in indexes: index < params.m and lottery(phi_f, dense(sigma, msg, index), stake, total) was evaluated and WON",
-              ["SingleSignatureForConcatenation::check_indices"], bound="<= 2 indices (unbounded version: Verus unit check_indices); all u64 values symbolic", replay="none"),
+              ["SingleSignatureForConcatenation::check_indices"], bound="<= 2 indices (unbounded version: Verus unit check_indices); all u64 values symbolic", replay="custom:replay_check_indices"),
             H("c01_single_signature_verify", "bounded",
               "Ok ==> BlsSignature::verify(sigma, msg||avk.root, pk) succeeded for the given pk, and check_indices post for (msg||root, stake, avk.total_stake)",
-              ["SingleSignatureForConcatenation::verify"], bound="1 index, 1-byte message, 1-byte root", replay="none"),
+              ["SingleSignatureForConcatenation::verify"], bound="1 index, 1-byte message, 1-byte root", replay="custom:replay_check_indices,replay_verify"),
         ] + [H("c01_preliminary_verify_n%d_%d_%d" % sh, "bounded", PRE_POST, PRE_FN, bound="shape: %d signatures with (%d, %d) indices; all values symbolic (u64 indices, stakes, k, m; phi_f; message, root)" % ((sh[0],) + sh[1:]),
-               replay="none", timeout=900, tier=("thorough" if sh in [(2, 2, 2)] else "quick")) for sh in [(0, 0, 0), (1, 1, 0), (1, 2, 0), (2, 1, 1), (2, 2, 1), (2, 2, 2)]]
+               replay="custom:replay_preliminary_verify", timeout=3000, tier="thorough") for sh in [(0, 0, 0), (1, 1, 0), (1, 2, 0), (2, 1, 1), (2, 2, 1), (2, 2, 2)]]
           + [H("c01_verify_n%d_%d_%d" % sh, "bounded", "Ok ==> preliminary_verify post and BlsSignature::verify_aggregate(msg||root, [vk_j], [sigma_j]) succeeded on exactly the contained (signature, committed key) pairs",
-               ["ConcatenationProof::verify"], bound="shape: %d signatures with (%d, %d) indices" % sh, replay="none", timeout=900, tier=("thorough" if sh == (2, 2, 1) else "quick")) for sh in [(1, 1, 0), (2, 1, 1), (2, 2, 1)]]
+               ["ConcatenationProof::verify"], bound="shape: %d signatures with (%d, %d) indices" % sh, replay="custom:replay_preliminary_verify", timeout=3000, tier="thorough") for sh in [(1, 1, 0), (2, 1, 1), (2, 2, 1)]]
+          + [H("c01_collect_signatures_verification_keys_in_order", "bounded", "returned (sigs, vks) == [(sigma_j, committed key_j)] in signature order (contract assumed by the Verus unit preliminary_verify)",
+               ["ConcatenationProof::collect_signatures_verification_keys"], bound="2 signatures", replay="none", timeout=600)]
         )],
     verus=[VerusUnit(
         "check_indices", "verus/C01/check_indices.tmpl.rs",
         "extracted text of check_indices: Ok ==> forall j < |indexes|: indexes[j] < m and lottery(phi_f, dense(sigma,msg,indexes[j]), stake, total) (unbounded number of indices); "
         "lemma: number of insertions == |set| ==> inserted sequence has no duplicates (counting kernel of preliminary_verify)",
-        ["SingleSignatureForConcatenation::check_indices"], paired_kani=["c01_check_indices_two_indices"])],
+        ["SingleSignatureForConcatenation::check_indices"], paired_kani=["c01_check_indices_two_indices"]),
+        VerusUnit(
+        "preliminary_verify", "verus/C01/preliminary_verify.tmpl.rs",
+        "extracted text of ConcatenationProof::preliminary_verify / verify and the accessors they use, unbounded in signatures and indices: Ok ==> every index of every signature < m and WON with that "
+        "signature's own committed stake and the avk's total stake on msg||root; all indices over all signatures pairwise distinct (flat sequence has no duplicates); their number >= k; "
+        "Merkle membership of [(vk_j, stake_j)] in signature order against the avk commitment with this proof's batch path; returned operands == [(sigma_j, vk_j)]; verify additionally: "
+        "BLS aggregate verification of msg||root on exactly those operands",
+        ["ConcatenationProof::preliminary_verify", "ConcatenationProof::verify", "SingleSignature::check_indices", "SingleSignature::get_concatenation_signature_indices",
+         "SingleSignature::get_concatenation_signature_sigma", "SingleSignatureForConcatenation::get_indices", "SingleSignatureForConcatenation::get_sigma",
+         "ClosedRegistrationEntry::get_stake", "ClosedRegistrationEntry::get_verification_key_for_concatenation", "AggregateVerificationKeyForConcatenation::get_total_stake"],
+        paired_kani=["c01_preliminary_verify_n1_1_0", "c01_preliminary_verify_n1_2_0"])],
+    replays=[dict(crate="mithril-stm", file=SS, module="replays/c01_sig.rs")],
     assumptions=[
         "blst BLS signature / aggregate verification sound (contract stubs; the harnesses prove which operands they are called on)",
         "random-coefficient aggregation in BlsSignature::aggregate / batch_verify_aggregates sound (assumed)",
         "evaluate_dense_mapping is a function of (sigma, msg, index) (Blake2b, assumed)",
         "Merkle membership check is a contract stub here; its own contract is decided under C09",
         "is_lottery_won is a contract stub here; decided (partly) under C08",
-        "std HashSet<u64> executed for real with fixed RandomState keys; hashbrown assumed to implement a set",
+        "std HashSet<u64>: in Verus vstd's specification of std::collections::HashSet (insert / len as a mathematical set); in the Kani harnesses HashSet::insert / len are contract stubs over a ghost array (hashbrown executed symbolically does not terminate) - std HashSet assumed to implement a set",
+        "Verus extraction rewrites for preliminary_verify (complete list in the template): StmResult<T> -> Result<T, AggregationError>; .with_context(..) removed; `for x in self.signatures.clone()` -> `for x in it: self.signatures.iter()`; `for &index in &E` -> `let verif_indices = E; for index in it2: verif_indices.iter() { let index = *index;`; Err(anyhow!(E)) -> Err(E); the iterator expression building `leaves` (filter_map/collect) -> collect_leaves contract (checked by the Kani harnesses); generic parameter <D> dropped",
+        "total number of indices in one aggregate <= usize::MAX (counter overflow precondition; memory-bounded in reality)",
         "re-encodings (JSON/CBOR/legacy bytes) are not part of this unit: contracts are on the decoded value (decoders: C05)",
     ],
     explanation="Every clause of C01 is a postcondition over a ghost log of the cryptographic callees' invocations, proved on the real functions by Kani (bounded in the number of signatures/indices) and, for the per-index loop, by Verus on the extracted text without bound.",
